@@ -136,3 +136,72 @@ func readersDuringWrites(r *vf.Run, base string) {
 	r.Floor("reads_during_writes_storage", int(r.Counter("reads_during_writes_storage"))+100000*r.ViolationCount(), 2000)
 	r.Floor("reads_during_writes_database", int(r.Counter("reads_during_writes_database"))+100000*r.ViolationCount(), 2000)
 }
+
+// parallelReaders: several goroutines read DIFFERENT keys through ONE storage / database object at the same time (the
+// pair-verify handlers of several connections look up different controllers through the accessory's one database).
+// Nobody writes.  Every read must return exactly the value of the key it asked for: whatever the object keeps between
+// calls (a buffer, a decoded record) must not travel from one call into another that runs at the same time.
+func parallelReaders(r *vf.Run, base string) {
+	dir := filepath.Join(base, "parallel-readers")
+	os.MkdirAll(dir, 0o755)
+	defer os.RemoveAll(dir)
+	st, err := util.NewFileStorage(dir)
+	if err != nil {
+		r.Inconclusive("parallel readers: " + err.Error())
+		return
+	}
+	d := db.NewDatabaseWithStorage(st)
+	const keys = 8
+	sizes := []int{512, 700, 1024, 31, 32, 33, 4096, 5000}
+	vals := make([][]byte, keys)
+	for k := 0; k < keys; k++ {
+		vals[k] = bytes.Repeat([]byte{byte('A' + k)}, sizes[k])
+		if err := st.Set(fmt.Sprintf("key%d", k), vals[k]); err != nil {
+			r.Inconclusive("parallel readers: set: " + err.Error())
+			return
+		}
+		if err := d.SaveEntity(db.Entity{Name: fmt.Sprintf("controller %d", k), PublicKey: vals[k], PrivateKey: []byte{byte(k)}}); err != nil {
+			r.Inconclusive("parallel readers: save: " + err.Error())
+			return
+		}
+	}
+	per := r.Pick(4000, 60000)
+	var reads, bad int64
+	var first atomic.Value
+	var wg sync.WaitGroup
+	for k := 0; k < keys; k++ {
+		wg.Add(1)
+		go func(k int) {
+			defer wg.Done()
+			for n := 0; n < per && atomic.LoadInt64(&bad) < 20; n++ {
+				var got []byte
+				var err error
+				what := "Get"
+				if n%3 == 2 {
+					what = "EntityWithName"
+					var e db.Entity
+					e, err = d.EntityWithName(fmt.Sprintf("controller %d", k))
+					got = e.PublicKey
+					if err == nil && (len(e.PrivateKey) != 1 || e.PrivateKey[0] != byte(k)) {
+						got = nil
+					}
+				} else {
+					got, err = st.Get(fmt.Sprintf("key%d", k))
+				}
+				atomic.AddInt64(&reads, 1)
+				if err != nil || !bytes.Equal(got, vals[k]) {
+					atomic.AddInt64(&bad, 1)
+					first.CompareAndSwap(nil, fmt.Sprintf("%s of key %d (%d bytes of %q) returned %d bytes starting %q, error %v, while %d other goroutines read other keys through the same object", what, k, len(vals[k]), vals[k][:1], len(got), got[:min(len(got), 8)], err, keys-1))
+				}
+			}
+		}(k)
+	}
+	wg.Wait()
+	r.Evals(int(reads))
+	r.Count("parallel_reads_of_different_keys_through_one_object", int(reads))
+	if b := atomic.LoadInt64(&bad); b > 0 {
+		f, _ := first.Load().(string)
+		r.Violation("concurrent:parallel-readers:wrong-value", fmt.Sprintf("%d of %d reads were wrong although nobody writes; the first: %s", b, reads, f), map[string]interface{}{"reads": reads, "wrong": b})
+	}
+	r.Floor("parallel_reads_of_different_keys_through_one_object", int(reads)+1000000*r.ViolationCount(), keys*per*9/10)
+}
